@@ -199,3 +199,32 @@ def renderHmsLetters (t : DT) : List Char :=
   isoDate t ++ [' '] ++ pad2 t.hh.toNat ++ ['h'] ++ pad2 t.mm.toNat ++ ['m'] ++ pad2 t.ss.toNat ++ ['s']
 
 end PT
+
+namespace PT
+
+/-- all-numeric dates with `/` (family 7) -/
+inductive NumFmt where
+  | us      -- MM/DD/YYYY            (no flag)
+  | eu      -- DD/MM/YYYY            (dayfirst)
+  | yf      -- YYYY/MM/DD            (any yearfirst)
+  | us2     -- MM/DD/YY
+  | eu2     -- DD/MM/YY              (dayfirst)
+  | yf2     -- YY/MM/DD              (yearfirst)
+  deriving Repr, DecidableEq
+
+def NumFmt.dayfirst : NumFmt → Bool
+  | .eu => true | .eu2 => true | _ => false
+def NumFmt.twoDigit : NumFmt → Bool
+  | .us2 => true | .eu2 => true | .yf2 => true | _ => false
+
+def renderNum (f : NumFmt) (t : DT) : List Char :=
+  let y4 := pad4 t.y.toNat; let y2 := pad2 (t.y.toNat % 100); let m := pad2 t.m.toNat; let d := pad2 t.d.toNat
+  match f with
+  | .us => m ++ ['/'] ++ d ++ ['/'] ++ y4
+  | .eu => d ++ ['/'] ++ m ++ ['/'] ++ y4
+  | .yf => y4 ++ ['/'] ++ m ++ ['/'] ++ d
+  | .us2 => m ++ ['/'] ++ d ++ ['/'] ++ y2
+  | .eu2 => d ++ ['/'] ++ m ++ ['/'] ++ y2
+  | .yf2 => y2 ++ ['/'] ++ m ++ ['/'] ++ d
+
+end PT
